@@ -52,6 +52,9 @@ def main():
     finally:
         shutil.rmtree(tmp, ignore_errors=True)
         shutil.rmtree(evid, ignore_errors=True)
+        import hashlib
+        suffix = "@" + hashlib.sha1(os.path.abspath(tmp).encode()).hexdigest()[:10]
+        shutil.rmtree(os.path.join(VERIF, ".cache", "work", pid + suffix), ignore_errors=True)
 
 
 if __name__ == "__main__":
